@@ -7,20 +7,20 @@
 
   FULL STATEMENT (the property's clause), for all handlers and causes:
       theorem match_eq_doc (h : Handler V) (c : Cause V) : matchHandler h c = true ↔ DocSpec h c
-  It is FALSE of the code in exactly three ways, each proved below with a concrete witness:
+  It is FALSE of the code in two ways, each proved below with a concrete witness (a third one,
+  finding C15-F2 "field callbacks get the private token", was repaired by /repo 07968cf and is now the
+  regression theorem `callback_none_regression`):
     * `doc_gap_old_only_witness` (finding C15-F1): for a *non-update* changing handler
       (creation/resume/deletion) the code tries `value=` on the old state as well; docs: "check the
       resource in its current ---and only--- state". E.g. `on.create(field, value=ABSENT)` holds for
       every creation, because `old` is `None`.
-    * `doc_gap_callback_token_witness` (finding C15-F2): a field callback receives the private
-      `_UNSET.token` for an absent field; docs: "The passed value will be None".
     * `doc_gap_token_literal_witness`: the private token used as a criterion matches an absent field
       (an abuse of a private name, not a finding).
   `match_eq_doc_partial` proves the statement under the guards `OldOnlyFree h c` (exactly the F1
-  disagreement) and `TokenFree h c` (per handler AND cause: only where a consulted state of the field
-  is absent can the token be passed; sufficient, not necessary: another disjunct may hold anyway);
+  disagreement) and `TokenFree h c` (per handler AND cause: the private token is not used as a
+  criterion against an absent state of the field; sufficient, not necessary);
   `match_eq_doc_update_partial` / `match_eq_doc_nonchanging_partial` show the first guard is void for
-  update handlers and for watching/spawning/indexing causes (the second one stays: C15-F2);
+  update handlers and for watching/spawning/indexing causes (the second one stays: private-token abuse);
   `oldOnlyFree_of_unchanged` / `oldOnlyFree_on_creation` are syntactic sufficient conditions.
   Equality ("changed", "equals") is Python's `==` on both sides (`PyVal.eq`): bool/int coercion can
   never show up as a doc gap (the harness keeps it out of the judged set).
@@ -93,25 +93,18 @@ structure DocSpec (h : Handler V) (c : Cause V) : Prop where
 
 -- the guards of the partial theorem
 /-- criterion `crit` is consulted on the resolved value `x`: the code and the docs can differ only
-    where the field is absent there (the code passes the private token to a callback, the docs say
-    `None`; the private token used as a criterion equals the absent marker) -/
-def Readable (crit : VCrit V) (x : Option V) : Prop :=
-  x = none → (∀ f, crit = .callback f → f none = f (some PyVal.null)) ∧ crit ≠ .lit none
+    where the field is absent there and the criterion is the private absent marker itself (which then
+    "equals" the absent field). Callbacks are no gap any more: they get `None` as documented. -/
+def Readable (crit : VCrit V) (x : Option V) : Prop := x = none → crit ≠ .lit none
 
-/-- per (handler, cause): every (criterion, state) pair that `match` consults is `Readable` — this
-    is the gap of finding C15-F2 (and of the private-token abuse), no more: with the field present in
-    all consulted states the guard holds for every callback -/
+/-- per (handler, cause): every (criterion, state) pair that `match` consults is `Readable` -/
 def TokenFree (h : Handler V) (c : Cause V) : Prop :=
   ∀ p, h.field = some p → p ≠ [] →
     (c.changing = true → Readable h.value (c.new p) ∧ Readable h.value (c.old p) ∧
       (h.changing = true → Readable h.old (c.old p) ∧ Readable h.new (c.new p))) ∧
     (c.changing = false → Readable h.value (c.body p))
 
-/-- (sufficient for `TokenFree`, cause-independent) callbacks cannot tell the private token from `None` -/
-def TokenBlind (h : Handler V) : Prop :=
-  ∀ f, (h.value = .callback f ∨ h.old = .callback f ∨ h.new = .callback f) → f none = f (some PyVal.null)
-
-/-- the private token is not used as a criterion -/
+/-- (sufficient for `TokenFree`, cause-independent) the private token is not used as a criterion -/
 def NoTokenLit (h : Handler V) : Prop :=
   h.value ≠ .lit none ∧ h.old ≠ .lit none ∧ h.new ≠ .lit none
 
@@ -182,14 +175,14 @@ theorem holdsCode_iff (crit : VCrit V) (x : Option V) (hR : Readable crit x) :
   | callback f =>
     cases x with
     | none => simp [holdsCode, ValueHolds, VCrit.isUnset, VCrit.isPresent, VCrit.isAbsent,
-        VCrit.isCallable, VCrit.call, VCrit.pyEq, docArg, (hR rfl).1 f rfl]
+        VCrit.isCallable, VCrit.call, VCrit.pyEq, docArg]
     | some v => simp [holdsCode, ValueHolds, VCrit.isUnset, VCrit.isPresent, VCrit.isAbsent,
         VCrit.isCallable, VCrit.call, VCrit.pyEq, docArg]
   | lit y =>
     cases y with
     | none =>
       cases x with
-      | none => exact absurd rfl (hR rfl).2
+      | none => exact absurd rfl (hR rfl)
       | some w => simp [holdsCode, ValueHolds, VCrit.isUnset, VCrit.isPresent, VCrit.isAbsent,
           VCrit.isCallable, VCrit.call, VCrit.pyEq, reseq]
     | some v => cases x <;> simp [holdsCode, ValueHolds, VCrit.isUnset, VCrit.isPresent, VCrit.isAbsent,
@@ -206,14 +199,14 @@ theorem sideCore_iff (crit : VCrit V) (x : Option V) (hR : Readable crit x) :
   | callback f =>
     cases x with
     | none => simp [sideCore, sideAtoms, SideHolds, VCrit.isUnset, VCrit.isPresent, VCrit.isAbsent,
-        VCrit.isCallable, VCrit.call, VCrit.pyEq, docArg, (hR rfl).1 f rfl]
+        VCrit.isCallable, VCrit.call, VCrit.pyEq, docArg]
     | some v => simp [sideCore, sideAtoms, SideHolds, VCrit.isUnset, VCrit.isPresent, VCrit.isAbsent,
         VCrit.isCallable, VCrit.call, VCrit.pyEq, docArg]
   | lit y =>
     cases y with
     | none =>
       cases x with
-      | none => exact absurd rfl (hR rfl).2
+      | none => exact absurd rfl (hR rfl)
       | some w => simp [sideCore, sideAtoms, SideHolds, VCrit.isUnset, VCrit.isPresent, VCrit.isAbsent,
           VCrit.isCallable, VCrit.call, VCrit.pyEq, reseq]
     | some v => cases x <;> simp [sideCore, sideAtoms, SideHolds, VCrit.isUnset, VCrit.isPresent,
@@ -345,14 +338,11 @@ theorem match_eq_doc_nonchanging_partial (h : Handler V) (c : Cause V) (hc : c.c
     (hR : TokenFree h c) : matchHandler h c = true ↔ DocSpec h c :=
   match_eq_doc_partial h c hR (fun _ _ _ hc' => by simp [hc] at hc')
 
-/-- the cause-independent sufficient condition for the callback/token guard -/
-theorem tokenFree_of_blind (h : Handler V) (c : Cause V) (hTok : TokenBlind h) (hLit : NoTokenLit h) :
-    TokenFree h c := by
+/-- the cause-independent sufficient condition for the token guard -/
+theorem tokenFree_of_noTokenLit (h : Handler V) (c : Cause V) (hLit : NoTokenLit h) : TokenFree h c := by
   intro p _ _
-  exact ⟨fun _ => ⟨fun _ => ⟨fun f e => hTok f (Or.inl e), hLit.1⟩, fun _ => ⟨fun f e => hTok f (Or.inl e), hLit.1⟩,
-      fun _ => ⟨fun _ => ⟨fun f e => hTok f (Or.inr (Or.inl e)), hLit.2.1⟩,
-                fun _ => ⟨fun f e => hTok f (Or.inr (Or.inr e)), hLit.2.2⟩⟩⟩,
-    fun _ => fun _ => ⟨fun f e => hTok f (Or.inl e), hLit.1⟩⟩
+  exact ⟨fun _ => ⟨fun _ => hLit.1, fun _ => hLit.1, fun _ => ⟨fun _ => hLit.2.1, fun _ => hLit.2.2⟩⟩,
+    fun _ => fun _ => hLit.1⟩
 
 /-- syntactic sufficient conditions for the old-state guard (finding C15-F1): the field is unchanged,
     or the object is being created (no old state) and `value=` is not ABSENT / a callback -/
@@ -400,30 +390,17 @@ theorem dedup_first_kept (pre post : List (Handler V)) (h : Handler V)
     (hfirst : ∀ g ∈ pre, g.key ≠ h.key) : h ∈ dedup (pre ++ h :: post) :=
   dedupByAux_first Handler.key _ [] pre post h rfl (by simp) hfirst
 
-/- FULL STATEMENT of the clause "one FUNCTION registered twice under the same id is invoked once":
-       theorem dedup_function_once (l) : ((dedup l).map Handler.funcKey).Nodup
-   FALSE of the code (`bound_method_twice_witness`, finding C15-F7): `_deduplicated` identifies a function
-   with the registered object (`id(handler.fn)`), and a bound method is a new object on every access. -/
-
-/-- the clause's key: the function itself (for a bound method: instance and function) and the id -/
+/-- the clause's key: the function itself (for a bound method: instance and function) and the id.
+    Since /repo c47dbbf this IS the key of `_deduplicated` (`Handler.key`); before, the code keyed on the
+    registered object and a bound method registered twice ran twice (finding C15-F7, now the regression
+    theorem `bound_method_once_regression`). -/
 def Handler.funcKey (h : Handler V) : Nat × String := (h.func, h.id)
 
-/-- every function of the list was registered through one and the same object (true for plain
-    functions, partials, lambdas; false for a method accessed anew for each decorator) -/
-def OneObjectPerFunction (l : List (Handler V)) : Prop :=
-  ∀ h ∈ l, ∀ g ∈ l, h.func = g.func → h.fn = g.fn
-
 omit [PyVal V] in
-/-- under that guard no two results share (function, id) -/
-theorem dedup_function_once_partial (l : List (Handler V)) (hobj : OneObjectPerFunction l) :
-    ((dedup l).map Handler.funcKey).Nodup := by
-  refine nodup_map_of_nodup_map Handler.key Handler.funcKey (dedup l) (dedup_nodup l) ?_
-  intro a ha b hb hk
-  have ha' := (dedup_sublist l).subset ha
-  have hb' := (dedup_sublist l).subset hb
-  simp only [Handler.funcKey, Prod.mk.injEq] at hk
-  simp only [Handler.key, Prod.mk.injEq]
-  exact ⟨hobj a ha' b hb' hk.1, hk.2⟩
+/-- "one FUNCTION registered twice under the same id is invoked once": no two results share
+    (function, id) — unguarded -/
+theorem dedup_function_once (l : List (Handler V)) : ((dedup l).map Handler.funcKey).Nodup :=
+  dedup_nodup l
 
 -- ---- get_handlers --------------------------------------------------------------------------------
 
@@ -728,20 +705,21 @@ theorem doc_gap_old_only_witness :
     ∃ (h : Handler J) (c : Cause J), TokenFree h c ∧ ¬IsUpdate h ∧ c.changing = true ∧
       matchHandler h c = true ∧ ¬DocSpec h c := by
   refine ⟨wH true .absent false, wC true (some (.str "x")) none (some (.str "x")), ?_, ?_, rfl, rfl, ?_⟩
-  · exact tokenFree_of_blind _ _ (by rintro f (e | e | e) <;> cases e)
-      ⟨(by intro e; cases e), (by intro e; cases e), (by intro e; cases e)⟩
+  · exact tokenFree_of_noTokenLit _ _ ⟨(by intro e; cases e), (by intro e; cases e), (by intro e; cases e)⟩
   · rintro ⟨_, e⟩; cases e
   · intro ds
     have := (ds.field ["spec", "f"] rfl (by simp)).other (by rintro ⟨_, _, e⟩; cases e)
     simp [wH, wC, ValueHolds] at this
 
-/-- C15-F2: a field callback `v is None` on an absent field: documented to hold (the callback is
-    passed None), but the code passes the private token and does not select the handler. -/
-theorem doc_gap_callback_token_witness :
-    ∃ (h : Handler J) (c : Cause J), OldOnlyFree h c ∧
-      matchHandler h c = false ∧ DocSpec h c := by
-  refine ⟨wH false (.callback isNoneCb) false, wC false none none none, ?_, rfl, ?_⟩
-  · intro p _ _ hc; cases hc
+/-- REGRESSION of the repaired finding C15-F2 (/repo 07968cf): a field callback `v is None` on an
+    absent field is passed `None` and holds — the code and the documented criteria agree (before the
+    repair the code passed the private token: `matchHandler … = false ∧ DocSpec …`).
+    Replayed by corpus/C15/F2.json with the strict oracle. -/
+theorem callback_none_regression :
+    let h := wH false (.callback isNoneCb) false
+    let c := wC false none none none
+    matchHandler h c = true ∧ DocSpec h c ∧ TokenFree h c := by
+  refine ⟨rfl, ?_, ?_⟩
   · refine ⟨?_, rfl, ?_, ?_, ?_, ?_⟩
     · intro b e; cases e; rfl
     · intro ls e; cases e
@@ -750,6 +728,8 @@ theorem doc_gap_callback_token_witness :
       cases e
       exact ⟨(fun hc => by cases hc), (fun _ => rfl), (fun hc => by cases hc)⟩
     · intro b e; cases e
+  · intro p _ _
+    exact ⟨(fun hc => by cases hc), (fun _ _ => by intro e; cases e)⟩
 
 /-- the private token used as a criterion matches an absent field; nothing documented does -/
 theorem doc_gap_token_literal_witness :
@@ -768,21 +748,8 @@ example :
     let c := wC true (some (.str "y")) (some (.str "x")) (some (.str "y")) (some "v")
     TokenFree h c ∧ IsUpdate h ∧ OldOnlyFree h c ∧ matchHandler h c = true := by
   refine ⟨?_, ⟨rfl, rfl⟩, ?_, by decide⟩
-  · exact tokenFree_of_blind _ _ (by rintro f (e | e | e) <;> cases e)
-      ⟨(by intro e; cases e), (by intro e; cases e), (by intro e; cases e)⟩
+  · exact tokenFree_of_noTokenLit _ _ ⟨(by intro e; cases e), (by intro e; cases e), (by intro e; cases e)⟩
   · intro p _ _ _ hnu; exact absurd ⟨rfl, rfl⟩ hnu
--- the guard is per (handler, cause): a callback that DOES tell the token from None is fine as long as
--- the field is present in every consulted state (no cause-independent guard could say this)
-example :
-    let h := wH false (.callback isNoneCb) false
-    let c := wC false (some .null) none none
-    TokenFree h c ∧ ¬TokenBlind h ∧ matchHandler h c = true := by
-  refine ⟨?_, ?_, by decide⟩
-  · intro p _ _
-    exact ⟨(fun hc => by cases hc), (fun _ hx => by cases hx)⟩
-  · intro hb
-    have := hb isNoneCb (Or.inl rfl)
-    simp [isNoneCb] at this
 -- … and without the label, or with an unchanged field, it does not
 example : matchHandler (wH true .unset true (.lit (some (.str "x"))) .present (some [("lk", .present)]))
     (wC true (some (.str "y")) (some (.str "x")) (some (.str "y")) none) = false := by decide
@@ -794,7 +761,7 @@ example : matchHandler (wH false (.lit (some (.str "x"))) false) (wC false (some
 -- non-vacuity of `dedup_*` / `selected_*`: create+resume of one function under one id → once
 example :
     let h := wH true .unset false
-    (getHandlersChanging [h, { h with labels := some [] }, { h with fn := 1 }]
+    (getHandlersChanging [h, { h with labels := some [] }, { h with fn := 1, func := 1 }]
       (wC true (some .null) none (some .null)) []).map Handler.key = [(0, "h"), (1, "h")] := by decide
 -- non-vacuity of `stealth`: a registry whose only handler needs label lk; object without it …
 def wR : Registry J :=
@@ -823,7 +790,7 @@ example :
   refine ⟨by decide, ?_, ?_, by decide, by decide⟩ <;> (intro g hg; simp at hg; subst hg; decide)
 example :
     let h := wH true .unset false
-    ∀ g ∈ [h, { h with labels := some [] }], g.key ≠ ({ h with fn := 1 } : Handler J).key := by
+    ∀ g ∈ [h, { h with labels := some [] }], g.key ≠ ({ h with fn := 1, func := 1 } : Handler J).key := by
   intro h g hg; simp at hg; rcases hg with rfl | rfl <;> decide
 
 /-- the carried-in transformation is re-sent to an object that nothing matches (and nothing else
@@ -891,22 +858,15 @@ theorem stealth_touch_witness :
           wCs none, wO false false true, by decide, by simp, ?_, rfl, rfl, by decide, rfl⟩
   intro h hh; simp at hh; subst hh; decide
 
-/-- C15-F7: `on.update(...)(ops.setup)` and `on.resume(...)(ops.setup)`: one function (`func = 7`),
-    one id, two objects (`fn = 1, 2`): both registrations are selected — the function runs twice -/
-theorem bound_method_twice_witness :
-    ∃ (l : List (Handler J)) (c : Cause J),
-      (getHandlersChanging l c []).map Handler.funcKey = [(7, "h"), (7, "h")] ∧
-      ¬((getHandlersChanging l c []).map Handler.funcKey).Nodup := by
+/-- REGRESSION of the repaired finding C15-F7 (/repo c47dbbf): `on.update(...)(ops.setup)` and
+    `on.resume(...)(ops.setup)` — one function (`func = 7`), one id, two bound-method objects
+    (`fn = 1, 2`): exactly one registration is selected. Replayed by corpus/C15/F7.json. -/
+theorem bound_method_once_regression :
+    ∃ (l : List (Handler J)) (c : Cause J), l.length = 2 ∧
+      (getHandlersChanging l c []).map Handler.funcKey = [(7, "h")] := by
   refine ⟨[{ wH true .unset false with fn := 1, func := 7, field := none },
            { wH true .unset false with fn := 2, func := 7, field := none }],
-          wC true none none none, by decide, by decide⟩
-
--- non-vacuity of `dedup_function_once_partial`: the same function through the SAME object twice → once
-example :
-    let h : Handler J := { wH true .unset false with fn := 1, func := 7, field := none }
-    OneObjectPerFunction [h, h] ∧ (getHandlersChanging [h, h] (wC true none none none) []).map Handler.funcKey = [(7, "h")] := by
-  refine ⟨?_, by decide⟩
-  intro a ha b hb _; simp at ha hb; rw [ha, hb]
+          wC true none none none, rfl, by decide⟩
 
 end Witnesses
 
